@@ -13,6 +13,11 @@ CUSTOM = [
     {'lits': [':r', ':consist-of', ':mod', ':domain', ':quant'], 'pats': [[':snt', 'many']], 'noop': False,
      'norm': [[':mod-of', ':domain'], [':domain-of', ':mod']], 'reifs': [[':mod', 'have-mod-91', ':ARG1', ':ARG2'],
                                                                       [':quant', 'have-quant-91', ':ARG1', ':ARG2']]},
+    # role-table keys are regular expressions: here several roles (two of them ending in -of by definition) are declared
+    # through alternation keys on the implementation side ('rx'); the specification reads them as the literals they match
+    {'lits': [':consist-of', ':prep-on-behalf-of', ':mod', ':domain', ':time', ':name', ':R'], 'pats': [[':ARG', 'one'], [':op', 'many']],
+     'rx': [[':(consist|prep-on-behalf)-of', [':consist-of', ':prep-on-behalf-of']], [':(mod|domain|time)', [':mod', ':domain', ':time']]],
+     'noop': False, 'norm': [[':mod-of', ':domain'], [':domain-of', ':mod']], 'reifs': [[':mod', 'have-mod-91', ':ARG1', ':ARG2']]},
 ]
 
 
